@@ -40,7 +40,7 @@ def random_mcircuit(cirq, rng, wires=None, qudits=False, mid=True, cc=True, chan
     for i in range(nops):
         r = rng.random()
         last = i >= nops - 2
-        want_measure = (r < 0.3 or (last and not measured) or (not mid and last))
+        want_measure = (r < (0.4 if clifford else 0.3) or (last and not measured) or (not mid and last))
         if want_measure and digits < max_digits and (mid or i >= nops - 2):
             k = rng.randint(1, min(2, n, max_digits - digits))
             ws = rng.sample(range(n), k)
@@ -112,4 +112,28 @@ def random_mcircuit(cirq, rng, wires=None, qudits=False, mid=True, cc=True, chan
     if not measured:
         w = rng.randrange(n)
         c.append(cirq.measure(qs[w], key='a'))
+    return c, qs
+
+
+def clifford_deep(cirq, rng):
+    """Clifford gates interleaved with many single-qubit measurements (distinct keys): later outcomes depend on how earlier
+    measurements updated the stabilizer AND destabilizer rows of the tableau / the CH form."""
+    n = rng.randint(2, 4)
+    qs = cirq.LineQubit.range(n)
+    c = cirq.Circuit()
+    nmeas = 0
+    for i in range(rng.randint(8, 20)):
+        r = rng.random()
+        if r < 0.35 and nmeas < 7:
+            c.append(cirq.measure(qs[rng.randrange(n)], key=f'm{nmeas}'))
+            nmeas += 1
+        elif r < 0.65:
+            a, b = rng.sample(range(n), 2)
+            c.append(rng.choice([cirq.CNOT, cirq.CNOT, cirq.CZ, cirq.SWAP])(qs[a], qs[b]))
+        else:
+            nm, es = rng.choice(CLIFF_1Q + [('H', [1.0])])
+            c.append((getattr(cirq, nm) ** rng.choice(es)).on(qs[rng.randrange(n)]))
+    while nmeas < 3:
+        c.append(cirq.measure(qs[rng.randrange(n)], key=f'm{nmeas}'))
+        nmeas += 1
     return c, qs
